@@ -66,6 +66,16 @@ func Run(c *common.Ctx) error {
 			{Op: "wtx", Frames: [][2]uint64{{1, 41}}, NewSize: 4},
 			{Op: "torollbackj", JMode: 1},
 			{Op: "rtx", Writes: map[uint32]uint64{4: 54}, NewSize: 4}},
+		// writers whose -shm descriptor is closed with the write lock still held (the process exits right after its
+		// commit): the transaction they leave in the log is recorded at that release like at any other
+		{{Op: "rtx", Writes: map[uint32]uint64{1: 1, 2: 2, 3: 3}, NewSize: 3, ToWAL: true},
+			{Op: "wtx", Frames: [][2]uint64{{2, 12}, {4, 14}}, NewSize: 4, CloseSHM: true},
+			{Op: "wtx", Frames: [][2]uint64{{3, 23}}, NewSize: 4},
+			{Op: "wtx", Frames: [][2]uint64{{1, 31}, {5, 35}}, NewSize: 5, CloseSHM: true, Split: true},
+			{Op: "wtx", Frames: [][2]uint64{{2, 42}}, NewSize: 3, CloseSHM: true},
+			{Op: "lfsckpt"},
+			{Op: "wtx", Frames: [][2]uint64{{3, 53}}, NewSize: 3, CloseSHM: true},
+			{Op: "wtx", Frames: [][2]uint64{{2, 62}}, NewSize: 3}},
 	}
 	for si, script := range scripts {
 		for _, be := range []bool{false, true} {
